@@ -133,11 +133,23 @@ func NewPanicError(v interface{}) *PanicError {
 }
 
 // Error implements the PanicError Error method.
-func (pe *PanicError) Error() string {
+func (pe *PanicError) Error() (s string) {
+	defer func() {
+		// fmt absorbs a panic of the value's own Error or String method, but not a panic
+		// raised while it reports that one
+		if e := recover(); e != nil {
+			s = fmt.Sprintf("%T", pe.Panic)
+		}
+	}()
 	return fmt.Sprintf("%v", pe.Panic)
 }
 
 // String returns the panic error message and stack.
-func (pe *PanicError) String() string {
+func (pe *PanicError) String() (s string) {
+	defer func() {
+		if e := recover(); e != nil {
+			s = fmt.Sprintf("%T\r\n%s", pe.Panic, pe.Stack)
+		}
+	}()
 	return fmt.Sprintf("%v\r\n%s", pe.Panic, pe.Stack)
 }
